@@ -79,6 +79,9 @@ structure Scope where
   readObjects : List (Bytes × Bytes) := []
   /-- canonical upload ids whose bookkeeping may be changed / read -/
   uploads : List Bytes := []
+  /-- canonical ids of uploads that are bound to ANOTHER bucket or key than the one the operation is addressed to: their record
+      may be read (that is how the operation learns it must answer NoSuchUpload), nothing else of them may be read or changed -/
+  probeUploads : List Bytes := []
   /-- `list_buckets`: names of the root's directories may be returned -/
   listsRoot : Bool := false
 
